@@ -162,6 +162,13 @@ def run_spec(p, res):
         qq = (len(db) // 8) * 2 * b
         if qq >= 2 * b:
             run("2,2,L", torch.tensor([[seq[:qq], seq[qq:2 * qq]], [seq[-qq:], seq[-2 * qq:-qq]]], dtype=f32))
+    # several batch dimensions holding 12 and 35 sequences of unequal content: (3,4,L), (2,2,3,L), (5,7,L)
+    if len(db) >= 4:
+        Ls = 4
+        rows = [[bit for j in range(Ls) for bit in sym(db[(3 * r_ + 5 * j + (r_ * j) % 3) % len(db)])] for r_ in range(35)]
+        run("3,4,L", torch.tensor(rows[:12], dtype=f32).reshape(3, 4, -1), may_reject=True)
+        run("2,2,3,L", torch.tensor(rows[12:24], dtype=f32).reshape(2, 2, 3, -1), may_reject=True)
+        run("5,7,L", torch.tensor(rows, dtype=f32).reshape(5, 7, -1), may_reject=True)
     # 1-D sequences of every length 1..6 symbols (implementations switch interpretation on numel / dim)
     for L in range(1, 7):
         for start in (0, 1, M - 1):
